@@ -26,6 +26,7 @@ at the top-level directory.
  * Purpose:		Sparse BLAS 2, using some dense BLAS 2 operations.
  */
 
+#include <ctype.h>
 #include "slu_cdefs.h"
 
 /*! \brief Solves one of the systems of equations A*x = b,   or   A'*x = b
@@ -103,6 +104,13 @@ sp_ctrsv(char *uplo, char *trans, char *diag, SuperMatrix *L,
     int_t luptr, istart, i, k, iptr;
     singlecomplex *work;
     flops_t solve_ops;
+
+    char uplo_u[2], trans_u[2], diag_u[2];
+
+    /* Accept the documented lower-case spellings. */
+    uplo_u[0] = (char) toupper((unsigned char) *uplo);   uplo_u[1] = '\0';  uplo = uplo_u;
+    trans_u[0] = (char) toupper((unsigned char) *trans); trans_u[1] = '\0'; trans = trans_u;
+    diag_u[0] = (char) toupper((unsigned char) *diag);   diag_u[1] = '\0';  diag = diag_u;
 
     /* Test the input parameters */
     *info = 0;
@@ -478,6 +486,8 @@ sp_cgemv(char *trans, singlecomplex alpha, SuperMatrix *A, singlecomplex *x,
     singlecomplex comp_zero = {0.0, 0.0};
     singlecomplex comp_one = {1.0, 0.0};
 
+    char trans_u[2];
+    trans_u[0] = (char) toupper((unsigned char) *trans); trans_u[1] = '\0'; trans = trans_u;
     notran = ( strncmp(trans, "N", 1)==0 || strncmp(trans, "n", 1)==0 );
     Astore = A->Store;
     Aval = Astore->nzval;
@@ -556,7 +566,17 @@ sp_cgemv(char *trans, singlecomplex alpha, SuperMatrix *A, singlecomplex *x,
 		jx += incx;
 	    }
 	} else {
-	    ABORT("Not implemented.");
+	    for (j = 0; j < A->ncol; ++j) {
+		if ( !c_eq(&x[jx], &comp_zero) ) {
+		    cc_mult(&temp, &alpha, &x[jx]);
+		    for (i = Astore->colptr[j]; i < Astore->colptr[j+1]; ++i) {
+			irow = Astore->rowind[i];
+			cc_mult(&temp1, &temp,  &Aval[i]);
+			c_add(&y[ky + irow * incy], &y[ky + irow * incy], &temp1);
+		    }
+		}
+		jx += incx;
+	    }
 	}
     } else if (strncmp(trans, "T", 1) == 0 || strncmp(trans, "t", 1) == 0) {
 	/* Form  y := alpha*A'*x + y. */
@@ -574,7 +594,17 @@ sp_cgemv(char *trans, singlecomplex alpha, SuperMatrix *A, singlecomplex *x,
 		jy += incy;
 	    }
 	} else {
-	    ABORT("Not implemented.");
+	    for (j = 0; j < A->ncol; ++j) {
+		temp = comp_zero;
+		for (i = Astore->colptr[j]; i < Astore->colptr[j+1]; ++i) {
+		    irow = Astore->rowind[i];
+		    cc_mult(&temp1, &Aval[i], &x[kx + irow * incx]);
+		    c_add(&temp, &temp, &temp1);
+		}
+		cc_mult(&temp1, &alpha, &temp);
+		c_add(&y[jy], &y[jy], &temp1);
+		jy += incy;
+	    }
 	}
     } else { /* trans == 'C' or 'c' */
 	/* Form  y := alpha * conj(A) * x + y. */
@@ -595,7 +625,19 @@ sp_cgemv(char *trans, singlecomplex alpha, SuperMatrix *A, singlecomplex *x,
 		jy += incy;
 	    }
 	} else {
-	    ABORT("Not implemented.");
+	    for (j = 0; j < A->ncol; ++j) {
+		temp = comp_zero;
+		for (i = Astore->colptr[j]; i < Astore->colptr[j+1]; ++i) {
+		    irow = Astore->rowind[i];
+		    temp2.r = Aval[i].r;
+		    temp2.i = -Aval[i].i;  /* conjugation */
+		    cc_mult(&temp1, &temp2, &x[kx + irow * incx]);
+		    c_add(&temp, &temp, &temp1);
+		}
+		cc_mult(&temp1, &alpha, &temp);
+		c_add(&y[jy], &y[jy], &temp1);
+		jy += incy;
+	    }
 	}
     }
 
